@@ -63,7 +63,7 @@ func (r *BatchedTokenRequest) Unmarshal(data []byte) bool {
 		default:
 			return false
 		}
-		if !token_request.Unmarshal(data[i:]) {
+		if !token_request.Unmarshal(data[i : offset+int(l)]) {
 			return false
 		}
 		r.token_requests = append(r.token_requests, token_request)
